@@ -310,10 +310,10 @@ func Par(fs ...func()) {
 }
 
 // Quiesce lets background goroutines settle.
-func Quiesce() { time.Sleep(20 * time.Millisecond) }
+func Quiesce() { time.Sleep(60 * time.Millisecond) }
 
 // FireTickers: natively wait long enough for every ticker of period d to fire at least once.
-func FireTickers(d time.Duration) { time.Sleep(2*d + 20*time.Millisecond) }
+func FireTickers(d time.Duration) { time.Sleep(3*d + 50*time.Millisecond) }
 
 // Gauge returns the sum over all label tuples of the named gauge in the default registry.
 func Gauge(name string) int64 {
